@@ -585,6 +585,7 @@ def sample_positions(trace, cap, rng, per_site=3):
 # granularity of suspension points used by sweeps that do not ask for one themselves ("line" | "instr");
 # the worker sets it per case (thorough tier runs every depth-1 sweep a second time at instruction granularity)
 DEFAULT_GRAN = ["line"]
+CASE_FAIL_FAST = int(os.environ.get("VERIF_CASE_FAIL_FAST", "40"))
 
 
 class Sweep(object):
@@ -713,6 +714,10 @@ class Sweep(object):
         self.res.count("sweep.trace_len", len(trace or []))
         for p in positions:
             self.run_one(p)
+            if sum(v["count"] for v in self.res.violations) >= CASE_FAIL_FAST:
+                # this case's verdict is settled; every further placement would only repeat it (hangs are slow to tear down)
+                self.res.count("sweep.stopped_after_violations")
+                break
             if need_recycle():
                 break
         self.res.count("sweep.placements_hit", self.hit)
